@@ -74,14 +74,15 @@ struct Rep { // reporting facade of one case
             c.sample(s);
     }
 };
-static double CPU_LIMIT_S = 0.15;
+static double CPU_LIMIT_S = 0.1;     // user CPU; a healthy case needs < 1 ms
+static double CONFIRM_LIMIT_S = 1.5; // a suspected hang is confirmed alone under this limit
 static void arm_cpu_limit(double s)
 {
     struct itimerval it;
     memset(&it, 0, sizeof it);
     it.it_value.tv_sec = (long)s;
     it.it_value.tv_usec = (long)((s - (long)s) * 1e6);
-    setitimer(ITIMER_PROF, &it, nullptr); // CPU time: insensitive to machine load
+    setitimer(ITIMER_VIRTUAL, &it, nullptr); // user CPU time: insensitive to machine load and to fork/page-fault cost
 }
 struct Rec {
     char type;
@@ -116,11 +117,11 @@ static std::string sub_worker(Ctx &c, const std::vector<long long> &L, size_t fr
         g_in_child = true;
         struct rlimit rl;
         getrlimit(RLIMIT_STACK, &rl);
-        rl.rlim_cur = 1 << 20; // make runaway recursion die quickly
+        rl.rlim_cur = 512 << 10; // make runaway recursion die quickly
         setrlimit(RLIMIT_STACK, &rl);
         rl.rlim_cur = rl.rlim_max = 0;
         setrlimit(RLIMIT_CORE, &rl);
-        signal(SIGPROF, SIG_DFL);
+        signal(SIGVTALRM, SIG_DFL);
         for (size_t k = from; k < L.size(); k++) {
             g_rb->cur = L[k];
             arm_cpu_limit(limit);
@@ -132,8 +133,13 @@ static std::string sub_worker(Ctx &c, const std::vector<long long> &L, size_t fr
         _exit(0);
     }
     int st = 0;
-    while (waitpid(p, &st, 0) < 0 && errno == EINTR) {
+    double tw = now();
+    struct rusage ru;
+    while (wait4(p, &st, 0, &ru) < 0 && errno == EINTR) {
     }
+    if (getenv("C27_DEBUG"))
+        fprintf(stderr, "[sub] from=%zu n=%zu done=%lld wall=%.3f user=%.3f sys=%.3f st=%x\n", from, L.size(), (long long)g_rb->done,
+                now() - tw, ru.ru_utime.tv_sec + 1e-6 * ru.ru_utime.tv_usec, ru.ru_stime.tv_sec + 1e-6 * ru.ru_stime.tv_usec, st);
     size_t off = 0, len = g_rb->len;
     while (off + 17 <= len) {
         Rec r;
@@ -157,17 +163,17 @@ static std::string sub_worker(Ctx &c, const std::vector<long long> &L, size_t fr
         return "";
     if (WIFSIGNALED(st)) {
         int sg = WTERMSIG(st);
-        if (sg == SIGPROF)
+        if (sg == SIGVTALRM)
             return "hang";
         return std::string("crash:") + (sg == SIGSEGV ? "SIGSEGV" : sg == SIGABRT ? "SIGABRT" : sg == SIGFPE ? "SIGFPE" : strsignal(sg));
     }
     return "exit:" + std::to_string(WEXITSTATUS(st));
 }
 
-enum { K_HANG_SLOT = 8, K_CRASH_SLOT = 9 };
+enum { K_HANG_SLOT = 8, K_CRASH_SLOT = 9, K_CLEAN_ALONE_SLOT = 16, K_PROBED = 17, K_QUARANTINED = 18 };
 // body of a case set: executes case i (computing a whole batch when i is not cached yet)
 static void batched(Ctx &c, const CaseSet &cs, long long i, const std::function<void(long long, Rep &)> &runcase,
-                    const std::function<std::string(long long)> &cls)
+                    const std::function<std::string(long long)> &cls, volatile char *dead_flags)
 {
     if (!g_rb) {
         g_rb = (RecBuf *)mmap(nullptr, sizeof(RecBuf), PROT_READ | PROT_WRITE, MAP_SHARED | MAP_ANONYMOUS, -1, 0);
@@ -181,7 +187,7 @@ static void batched(Ctx &c, const CaseSet &cs, long long i, const std::function<
         if (cs.n < 64)
             J = 1;
         J = std::min<long long>(J, std::max<long long>(1, cs.n));
-        size_t B = replaying() ? 1 : 128;
+        size_t B = replaying() ? 1 : 1024;
         std::vector<long long> L;
         for (long long k = i; k < cs.n && L.size() < B; k += J)
             L.push_back(k);
@@ -193,17 +199,22 @@ static void batched(Ctx &c, const CaseSet &cs, long long i, const std::function<
                 pos = L.size();
                 break;
             }
-            // confirm alone with a larger limit (a death may be caused by an earlier case of the batch
-            // or by a slow first execution)
             long long victim = L[done];
-            g_bs.recs.erase(victim);
-            size_t d2 = 0;
-            std::string oc2 = sub_worker(c, {victim}, 0, 4 * CPU_LIMIT_S, runcase, &d2);
-            if (!oc2.empty()) {
-                g_bs.recs.erase(victim);
-                g_bs.died[victim] = oc2;
-            } else if (getenv("C27_DEBUG"))
-                fprintf(stderr, "[iso] %lld %s in batch but clean when alone\n", victim, oc.c_str());
+            bool first_in_sub = done == pos;
+            g_bs.recs.erase(victim); // partial records of the dying case are dropped; the death itself is the finding
+            if (first_in_sub && oc != "hang") {
+                g_bs.died[victim] = oc; // nothing ran before it in that process: the crash is the case's own
+            } else {
+                // confirm alone: a crash may be caused by an earlier case of the batch, and the cheap CPU limit can be
+                // hit spuriously (on an overcommitted host the guest charges stolen time to the running task)
+                size_t d2 = 0;
+                std::string oc2 = sub_worker(c, {victim}, 0, CONFIRM_LIMIT_S, runcase, &d2);
+                if (!oc2.empty()) {
+                    g_bs.recs.erase(victim);
+                    g_bs.died[victim] = oc2;
+                } else
+                    c.count(K_CLEAN_ALONE_SLOT);
+            }
             pos = done + 1;
         }
         for (auto k : L)
@@ -225,7 +236,23 @@ static void batched(Ctx &c, const CaseSet &cs, long long i, const std::function<
     if (dt != g_bs.died.end()) {
         const std::string &oc = dt->second;
         std::string k = cls(i);
+        {
+            // report with top-level kinds only: strip the [...] detail of composite operands
+            std::string t;
+            int depth = 0;
+            for (char ch : k) {
+                if (ch == '[')
+                    depth++;
+                else if (ch == ']')
+                    depth--;
+                else if (depth == 0)
+                    t += ch;
+            }
+            k = t;
+        }
         c.count(oc == "hang" ? K_HANG_SLOT : K_CRASH_SLOT);
+        if (dead_flags)
+            dead_flags[i] = 1;
         c.outcome(oc + ":" + k);
         c.violation(oc + ":" + k, (cs.desc ? cs.desc(i) : "") + ": "
                                       + (oc == "hang" ? "did not terminate within the CPU limit" : "process died, " + oc));
@@ -505,7 +532,10 @@ static std::vector<std::string> CN = {"transitions_membership_judged",
                                       "setfunc_cases_skipped(model_does_not_cover_tree)",
                                       "setfunc_cases_undecided_result",
                                       "transitions_result_has_unknown_node",
-                                      "nary_cases_with_repeated_operand"};
+                                      "nary_cases_with_repeated_operand",
+                                      "cases_died_in_batch_but_clean_when_rerun_alone(not_reported)",
+                                      "case_indices_already_run_as_class_probe",
+                                      "cases_quarantined(operand_kind_class_died_on_its_probe;not_run)"};
 
 static std::string mstr(int m)
 {
@@ -577,14 +607,14 @@ static void judge(Rep &rp, Ctx &c, const std::string &opname, const std::string 
             ans = -2;
             what = x.what();
         } catch (std::exception &x) {
-            rp.violation("contains-exception(" + kind_deep(*r) + ")",
+            rp.violation("contains-exception(" + kind(*r) + ")",
                          "contains(" + p.name + ") on " + sstr(r) + " threw non-library exception " + x.what());
         }
         if (ans >= 0) {
             c.count(K_CONTAINS_ATOM);
             if (got >= 0 && ans != got) {
                 const char *pk = p.kind == RAT ? "rational" : p.kind == IRR ? "irrational" : p.kind == NONREAL ? "non-real" : "non-number";
-                rp.violation("contains(" + kind_deep(*r) + ")@" + pk,
+                rp.violation("contains(" + kind(*r) + ")@" + pk,
                              "(" + sstr(r) + ")->contains(" + p.name + ") = " + (ans ? "True" : "False") + " but the set [" + key(*r)
                                  + "] denotes " + mstr(got) + "; set obtained by " + recipe);
             }
@@ -605,7 +635,7 @@ static void check_transition(Rep &rp, Ctx &c, int op, int ia, int ib)
 {
     const State &A = SS.S[ia], &B = SS.S[ib];
     std::string recipe = std::string(OPN[op]) + " with a=" + A.recipe + ", b=" + B.recipe;
-    std::string ksig = kind_deep(*A.e) + "," + kind_deep(*B.e);
+    std::string ksig = kind(*A.e) + "," + kind(*B.e);
     c.eval();
     RCP<const Set> r;
     try {
@@ -893,12 +923,12 @@ static void check_func(Rep &rp, Ctx &c, int fn, int is)
             rp.outcome(std::string(FNN[fn]) + ":throw:" + x.what());
             return;
         } catch (std::exception &x) {
-            rp.violation(std::string("exception:") + FNN[fn] + "(" + kind_deep(s) + ")", recipe + " threw " + x.what());
+            rp.violation(std::string("exception:") + FNN[fn] + "(" + kind(s) + ")", recipe + " threw " + x.what());
             return;
         }
         if (r.is_null()) {
             // the visitor's fallback leaves the result unset
-            rp.violation(std::string("null-result:") + FNN[fn] + "(" + kind_deep(s) + ")", recipe + " returned a null RCP");
+            rp.violation(std::string("null-result:") + FNN[fn] + "(" + kind(s) + ")", recipe + " returned a null RCP");
             return;
         }
         ExtReal want, got;
@@ -914,7 +944,7 @@ static void check_func(Rep &rp, Ctx &c, int fn, int is)
         }
         c.count(K_F_JUDGED);
         if (cmp(want, got) != 0)
-            rp.violation(std::string(FNN[fn]) + "(" + kind_deep(s) + ")",
+            rp.violation(std::string(FNN[fn]) + "(" + kind(s) + ")",
                          recipe + " = " + sstr(r) + " but the set [" + A.key + "] has " + FNN[fn] + " " + er_str(want));
         return;
     }
@@ -926,11 +956,11 @@ static void check_func(Rep &rp, Ctx &c, int fn, int is)
         rp.outcome(std::string(FNN[fn]) + ":throw:" + x.what());
         return;
     } catch (std::exception &x) {
-        rp.violation(std::string("exception:") + FNN[fn] + "(" + kind_deep(s) + ")", recipe + " threw " + x.what());
+        rp.violation(std::string("exception:") + FNN[fn] + "(" + kind(s) + ")", recipe + " threw " + x.what());
         return;
     }
     if (r.is_null()) {
-        rp.violation(std::string("null-result:") + FNN[fn] + "(" + kind_deep(s) + ")", recipe + " returned a null RCP");
+        rp.violation(std::string("null-result:") + FNN[fn] + "(" + kind(s) + ")", recipe + " returned a null RCP");
         return;
     }
     std::function<int(const Pt &)> exp;
@@ -952,7 +982,7 @@ static void check_func(Rep &rp, Ctx &c, int fn, int is)
         judged = true;
         c.count(K_POINTS);
         if (want != got) {
-            rp.violation(std::string(FNN[fn]) + "(" + kind_deep(s) + ")",
+            rp.violation(std::string(FNN[fn]) + "(" + kind(s) + ")",
                          recipe + " = " + sstr(r) + " [" + key(*r) + "] but the " + FNN[fn] + " is " + shown + "; point " + p.name
                              + " expected " + mstr(want) + ", returned set denotes " + mstr(got));
             break;
@@ -999,12 +1029,17 @@ int main(int argc, char **argv)
             for (size_t j = i + 1; j < ends.size(); j++)
                 for (int lo = 0; lo < 2; lo++)
                     for (int ro = 0; ro < 2; ro++) {
-                        if (i == 0 && !lo)
+                        bool li = i == 0, ri = j == ends.size() - 1;
+                        if ((li && !lo) || (ri && !ro))
                             continue; // infinite endpoints are always open
-                        if (j == ends.size() - 1 && !ro)
-                            continue;
-                        leaves.push_back({std::string(lo ? "(" : "[") + ends[i].first + "," + ends[j].first + (ro ? ")" : "]"),
-                                          interval(ends[i].second, ends[j].second, lo, ro)});
+                        std::string nm = std::string(lo ? "(" : "[") + ends[i].first + "," + ends[j].first + (ro ? ")" : "]");
+                        if (!thorough && (li || ri)) {
+                            // quick: 7 of the 17 intervals with an infinite endpoint
+                            static const std::set<std::string> pick = {"(-oo,0)", "(-oo,1]", "(-oo,2)", "(1,oo)", "[2,oo)", "(3,oo)", "(-oo,oo)"};
+                            if (!pick.count(nm))
+                                continue;
+                        }
+                        leaves.push_back({nm, interval(ends[i].second, ends[j].second, lo, ro)});
                     }
         std::vector<std::pair<std::string, RCP<const Basic>>> el = {{"0", integer(0)},
                                                                     {"1", integer(1)},
@@ -1012,6 +1047,8 @@ int main(int argc, char **argv)
                                                                     {"2", integer(2)},
                                                                     {"5", integer(5)}};
         for (int m = 1; m < 32; m++) {
+            if (!thorough && __builtin_popcount(m) > 2 && m != 31)
+                continue; // quick: singletons, pairs and the full set
             set_basic c;
             std::string n;
             for (int b = 0; b < 5; b++)
@@ -1028,15 +1065,105 @@ int main(int argc, char **argv)
     R.counters["states_S0(leaves)"] = n0;
 
     auto crash_cls = [&](int op, int ia, int ib) {
-        return std::string(OPS[op]) + "(" + kind_deep(*SS.S[ia].e) + "," + kind_deep(*SS.S[ib].e) + ")";
+        return std::string(OPN[op]) + " with a:" + kind_deep(*SS.S[ia].e) + ", b:" + kind_deep(*SS.S[ib].e);
     };
 
+    // A layer = a probe pass (the first case of every operand-kind class) followed by the full pass.
+    // Classes whose probe hung or crashed are quarantined: their other members are counted, not run
+    // (every death costs a process; the class is reported once through its probe).
+    struct Layer {
+        std::string name;
+        long long n = 0;
+        std::function<std::string(long long)> desc, cls;
+        std::function<void(long long, Rep &, Ctx &)> runcase;
+        std::set<long long> bad; // out: violating, dead or quarantined indices
+        uint64_t quarantined = 0, classes = 0, dead_classes = 0;
+    };
+    auto run_layer = [&](Layer &ly, bool force_real) {
+        // force_real: a later case set is being replayed and needs this layer's outcome
+        long long keep = opts().only_index;
+        bool rp_probe = replaying() && opts().only_check == ly.name + "/probe";
+        bool rp_full = replaying() && opts().only_check == ly.name;
+        std::vector<int> cid(ly.n);
+        std::vector<long long> rep;
+        {
+            std::unordered_map<std::string, int> ids;
+            for (long long k = 0; k < ly.n; k++) {
+                std::string cl = ly.cls(k);
+                auto it = ids.find(cl);
+                if (it == ids.end()) {
+                    it = ids.emplace(cl, (int)rep.size()).first;
+                    rep.push_back(k);
+                }
+                cid[k] = it->second;
+            }
+        }
+        ly.classes = rep.size();
+        volatile char *dead = (volatile char *)mmap(nullptr, rep.size() + 1, PROT_READ | PROT_WRITE, MAP_SHARED | MAP_ANONYMOUS, -1, 0);
+        CaseSet pr;
+        pr.name = ly.name + "/probe";
+        pr.n = rep.size();
+        pr.counter_names = CN;
+        pr.hang_s = 900;
+        pr.desc = [&](long long j) { return ly.desc(rep[j]); };
+        pr.body = [&](long long j, Ctx &c) {
+            batched(
+                c, pr, j, [&](long long jj, Rep &r) { ly.runcase(rep[jj], r, c); }, [&](long long jj) { return ly.cls(rep[jj]); }, dead);
+        };
+        if ((force_real || rp_full) && replaying())
+            opts().only_index = -1;
+        run_cases(pr);
+        opts().only_index = keep;
+        if (rp_probe)
+            return;
+        for (auto j : pr.bad)
+            ly.bad.insert(rep[j]);
+        for (size_t j = 0; j < rep.size(); j++)
+            if (dead[j])
+                ly.dead_classes++;
+        CaseSet fu;
+        fu.name = ly.name;
+        fu.n = ly.n;
+        fu.counter_names = CN;
+        fu.hang_s = 900;
+        fu.desc = ly.desc;
+        auto fullcase = [&](long long k, Rep &r, Ctx &c) {
+            if (rep[cid[k]] == k) {
+                c.count(K_PROBED);
+                return;
+            }
+            if (dead[cid[k]]) {
+                c.count(K_QUARANTINED);
+                return;
+            }
+            ly.runcase(k, r, c);
+        };
+        fu.body = [&](long long k, Ctx &c) {
+            batched(
+                c, fu, k, [&](long long kk, Rep &r) { fullcase(kk, r, c); }, ly.cls, nullptr);
+        };
+        if (force_real && replaying())
+            opts().only_index = -1;
+        run_cases(fu);
+        opts().only_index = keep;
+        for (auto k : fu.bad)
+            ly.bad.insert(k);
+        for (long long k = 0; k < ly.n; k++)
+            if (dead[cid[k]]) {
+                ly.bad.insert(k);
+                if (rep[cid[k]] != k)
+                    ly.quarantined++;
+            }
+        R.counters[ly.name + ":operand_kind_classes"] = ly.classes;
+        R.counters[ly.name + ":classes_quarantined_after_probe_death"] = ly.dead_classes;
+        munmap((void *)dead, rep.size() + 1);
+    };
+    auto replay_in = [&](const std::string &nm) { return replaying() && (opts().only_check == nm || opts().only_check == nm + "/probe"); };
+
     // ---- layer 1: every binary operation on every ordered pair of leaves
-    CaseSet l1;
+    Layer l1;
     l1.name = "L1:op(S0,S0)";
     l1.n = n0 * n0 * NOPS;
-    l1.counter_names = CN;
-    l1.hang_s = 60;
     auto dec1 = [&](long long i, int &op, int &ia, int &ib) {
         op = i % NOPS;
         ib = (i / NOPS) % n0;
@@ -1047,37 +1174,21 @@ int main(int argc, char **argv)
         dec1(i, op, ia, ib);
         return std::string(OPN[op]) + " with a=" + SS.S[ia].recipe + ", b=" + SS.S[ib].recipe;
     };
-    l1.body = [&](long long i, Ctx &c) {
+    l1.cls = [&](long long i) {
         int op, ia, ib;
         dec1(i, op, ia, ib);
-        (void)op;
-        batched(
-            c, l1, i,
-            [&](long long k, Rep &rp) {
-                int o, a, b;
-                dec1(k, o, a, b);
-                check_transition(rp, c, o, a, b);
-            },
-            [&](long long k) {
-                int o, a, b;
-                dec1(k, o, a, b);
-                return crash_cls(o, a, b);
-            });
+        return crash_cls(op, ia, ib);
     };
-    {
-        // when a case of a later case set is replayed, S1 must be rebuilt exactly: run L1 for real
-        long long keep = opts().only_index;
-        bool later = replaying() && opts().only_check != l1.name;
-        if (later)
-            opts().only_index = -1;
-        run_cases(l1);
-        if (later)
-            opts().only_index = keep;
-        else if (replaying())
-            return R.finish();
-    }
+    l1.runcase = [&](long long i, Rep &rp, Ctx &c) {
+        int op, ia, ib;
+        dec1(i, op, ia, ib);
+        check_transition(rp, c, op, ia, ib);
+    };
+    run_layer(l1, replaying() && !replay_in(l1.name));
+    if (replay_in(l1.name))
+        return R.finish();
 
-    // S1 from the transitions that survived (no violation, crash or hang)
+    // S1 from the transitions that survived (no violation, crash, hang or quarantine)
     auto short_recipe = [&](int op, int ia, int ib) {
         const char *sn[] = {"U", "U'", "I", "I'", "\\"};
         return "(" + SS.S[ia].recipe + " " + sn[op] + " " + SS.S[ib].recipe + ")";
@@ -1087,8 +1198,6 @@ int main(int argc, char **argv)
             continue;
         int op, ia, ib;
         dec1(i, op, ia, ib);
-        if (getenv("C27_DEBUG"))
-            fprintf(stderr, "[S1] %lld %s\n", i, l1.desc(i).c_str());
         try {
             SS.add(apply(op, SS.S[ia].e, SS.S[ib].e), short_recipe(op, ia, ib), 1);
         } catch (std::exception &) {
@@ -1099,45 +1208,33 @@ int main(int argc, char **argv)
     std::string bound = "every binary operation on all ordered pairs of the " + std::to_string(n0) + " leaves";
 
     // ---- set functions on every state of S1
-    CaseSet fc;
+    Layer fc;
     fc.name = "F:setfunc(S1)";
     fc.n = n1 * NFN;
-    fc.counter_names = CN;
-    fc.hang_s = 60;
     fc.desc = [&](long long i) { return std::string(FNN[i % NFN]) + "(" + SS.S[i / NFN].recipe + ")"; };
-    fc.body = [&](long long i, Ctx &c) {
-        int fn = i % NFN, is = i / NFN;
-        (void)fn;
-        (void)is;
-        batched(
-            c, fc, i, [&](long long k, Rep &rp) { check_func(rp, c, k % NFN, k / NFN); },
-            [&](long long k) { return std::string(FNN[k % NFN]) + "(" + kind_deep(*SS.S[k / NFN].e) + ")"; });
-    };
+    fc.cls = [&](long long k) { return std::string(FNN[k % NFN]) + "(" + kind_deep(*SS.S[k / NFN].e) + ")"; };
+    fc.runcase = [&](long long k, Rep &rp, Ctx &c) { check_func(rp, c, k % NFN, k / NFN); };
     if (!past_deadline()) {
-        run_cases(fc);
+        run_layer(fc, false);
+        if (replay_in(fc.name))
+            return R.finish();
         bound += "; sup/inf/boundary/interior/closure on all " + std::to_string(n1) + " states of S1";
     }
 
     // ---- layer 2: composite states against a leaf subset, both orders
     std::vector<int> sub; // leaf subset S0'
-    for (int i = 0; i < n0; i++) {
-        const std::string &nm = SS.S[i].recipe;
-        if (thorough)
-            sub.push_back(i);
-        else {
-            static const std::set<std::string> pick = {"EmptySet", "UniversalSet", "Naturals", "Integers", "Rationals", "Reals",
-                                                       "Complexes", "[0,1]", "(0,1)", "[1,2)", "(1,3]", "[2,3]", "(-oo,1)", "[2,oo)",
-                                                       "(-oo,oo)", "{0}", "{1}", "{3/2}", "{0,2}", "{1,5}", "{0,1,3/2,2,5}"};
-            if (pick.count(nm))
+    {
+        static const std::set<std::string> pickq = {"EmptySet", "UniversalSet", "Naturals", "Integers", "Rationals", "Reals", "Complexes",
+                                                    "[0,1]", "(0,1)", "[1,2)", "(1,3]", "[2,3]", "(-oo,1]", "[2,oo)", "(-oo,oo)",
+                                                    "{0}", "{1}", "{3/2}", "{0,2}", "{1,5}", "{0,1,3/2,2,5}"};
+        for (int i = 0; i < n0; i++)
+            if (pickq.count(SS.S[i].recipe))
                 sub.push_back(i);
-        }
     }
     const long long ns = sub.size(), nc = n1 - n0;
-    CaseSet l2;
+    Layer l2;
     l2.name = "L2:op(S1,S0')+op(S0',S1)";
     l2.n = nc * ns * 2 * NOPS;
-    l2.counter_names = CN;
-    l2.hang_s = 60;
     auto dec2 = [&](long long i, int &op, int &ia, int &ib) {
         op = i % NOPS;
         long long j = i / NOPS;
@@ -1153,25 +1250,20 @@ int main(int argc, char **argv)
         dec2(i, op, ia, ib);
         return std::string(OPN[op]) + " with a=" + SS.S[ia].recipe + ", b=" + SS.S[ib].recipe;
     };
-    l2.body = [&](long long i, Ctx &c) {
+    l2.cls = [&](long long i) {
         int op, ia, ib;
         dec2(i, op, ia, ib);
-        (void)op;
-        batched(
-            c, l2, i,
-            [&](long long k, Rep &rp) {
-                int o, a, b;
-                dec2(k, o, a, b);
-                check_transition(rp, c, o, a, b);
-            },
-            [&](long long k) {
-                int o, a, b;
-                dec2(k, o, a, b);
-                return crash_cls(o, a, b);
-            });
+        return crash_cls(op, ia, ib);
     };
-    if (!past_deadline()) {
-        run_cases(l2);
+    l2.runcase = [&](long long i, Rep &rp, Ctx &c) {
+        int op, ia, ib;
+        dec2(i, op, ia, ib);
+        check_transition(rp, c, op, ia, ib);
+    };
+    if (thorough && !past_deadline()) {
+        run_layer(l2, false);
+        if (replay_in(l2.name))
+            return R.finish();
         bound += "; every binary operation between each of the " + std::to_string(nc) + " composite states of S1 and each of "
                  + std::to_string(ns) + " leaves, both orders";
     }
@@ -1179,44 +1271,41 @@ int main(int argc, char **argv)
     // ---- n-ary functions with three operands over leaves
     {
         std::vector<int> t3;
-        for (int i = 0; i < n0; i++) {
-            const std::string &nm = SS.S[i].recipe;
-            static const std::set<std::string> pick = {"EmptySet", "UniversalSet", "Naturals0", "Integers", "Rationals", "Reals", "[0,1]",
-                                                       "(0,1)", "[1,2)", "(1,3]", "[2,3]", "(0,2)", "(-oo,1)", "[2,oo)", "{0}",
-                                                       "{1}", "{3/2}", "{0,2}", "{1,5}", "{0,1,3/2,2,5}"};
-            if (thorough ? true : pick.count(nm) > 0)
-                t3.push_back(i);
+        {
+            static const std::set<std::string> pickq = {"EmptySet", "UniversalSet", "Naturals0", "Integers", "Rationals", "Reals", "[0,1]",
+                                                        "(0,1)", "[1,2)", "(1,3]", "[2,3]", "(0,2)", "(-oo,1]", "[2,oo)", "{0}",
+                                                        "{1}", "{3/2}", "{0,2}", "{1,5}", "{0,1,3/2,2,5}"};
+            static const std::set<std::string> pickt = {"Naturals", "Complexes", "(0,1]", "[1,2]", "(1,2)", "[0,3]", "(2,3)", "(-oo,0)",
+                                                        "(3,oo)", "(-oo,oo)", "{2}", "{0,1}", "{3/2,2}", "{0,1,2}"};
+            for (int i = 0; i < n0; i++) {
+                const std::string &nm = SS.S[i].recipe;
+                if (pickq.count(nm) || (thorough && pickt.count(nm)))
+                    t3.push_back(i);
+            }
         }
         const long long m = t3.size();
-        CaseSet l3;
+        // one representative per multiset {a<=b<=c} (set_set is unordered)
+        std::vector<std::array<int, 3>> tri;
+        for (int a = 0; a < m; a++)
+            for (int b = a; b < m; b++)
+                for (int cc = b; cc < m; cc++)
+                    tri.push_back({t3[a], t3[b], t3[cc]});
+        Layer l3;
         l3.name = "N3:nary(S0'',S0'',S0'')";
-        l3.n = m * m * m * 2;
-        l3.counter_names = CN;
-        l3.hang_s = 60;
-        auto dec3 = [&](long long i, int &op, int &a, int &b, int &cc) {
-            op = i % 2;
-            long long j = i / 2;
-            cc = t3[j % m];
-            b = t3[(j / m) % m];
-            a = t3[j / m / m];
-        };
+        l3.n = (long long)tri.size() * 2;
         l3.desc = [&](long long i) {
-            int op, a, b, cc;
-            dec3(i, op, a, b, cc);
-            return std::string(op ? "set_intersection" : "set_union") + "({" + SS.S[a].recipe + ", " + SS.S[b].recipe + ", "
-                   + SS.S[cc].recipe + "})";
+            auto &t = tri[i / 2];
+            return std::string(i % 2 ? "set_intersection" : "set_union") + "({" + SS.S[t[0]].recipe + ", " + SS.S[t[1]].recipe + ", "
+                   + SS.S[t[2]].recipe + "})";
         };
-        auto n3cls = [&](long long k) {
-            int op, a, b, cc;
-            dec3(k, op, a, b, cc);
-            return std::string(op ? "set_intersection" : "set_union") + "{" + kind(*SS.S[a].e) + "," + kind(*SS.S[b].e) + ","
-                   + kind(*SS.S[cc].e) + "}";
+        l3.cls = [&](long long i) {
+            auto &t = tri[i / 2];
+            return std::string(i % 2 ? "set_intersection" : "set_union") + "{" + kind(*SS.S[t[0]].e) + "," + kind(*SS.S[t[1]].e) + ","
+                   + kind(*SS.S[t[2]].e) + "}";
         };
-        auto n3case = [&](long long k, Rep &rp, Ctx &c) {
-            int op, a, b, cc;
-            dec3(k, op, a, b, cc);
-            if (a > b || b > cc) // set_set is unordered: one representative per multiset
-                return;
+        l3.runcase = [&](long long k, Rep &rp, Ctx &c) {
+            auto &t = tri[k / 2];
+            int op = k % 2, a = t[0], b = t[1], cc = t[2];
             if (a == b || b == cc)
                 c.count(K_NARY_DUP);
             std::string ks = kind(*SS.S[a].e) + "," + kind(*SS.S[b].e) + "," + kind(*SS.S[cc].e);
@@ -1240,23 +1329,21 @@ int main(int argc, char **argv)
                 return sem(x, sem(x, memb(*A, p), memb(*B, p)), memb(*C, p));
             });
         };
-        l3.body = [&](long long i, Ctx &c) {
-            batched(
-                c, l3, i, [&](long long k, Rep &rp) { n3case(k, rp, c); }, n3cls);
-        };
         if (!past_deadline()) {
-            run_cases(l3);
+            run_layer(l3, false);
+            if (replay_in(l3.name))
+                return R.finish();
             bound += "; n-ary set_union/set_intersection on every multiset of 3 out of " + std::to_string(m) + " leaves";
         }
     }
 
     R.states = SS.size();
     R.transitions = R.evaluations;
-    R.bound_completed = bound;
+    R.bound_completed = bound + " (operand-kind classes whose first member hung or crashed are quarantined: counted, not run)";
     R.counters["test_points_static"] = P.size();
-    R.rule = "E1: leaves = 41 intervals (endpoints -oo,0,1,2,3,oo x openness), 31 finite subsets of {0,1,3/2,2,5}, EmptySet, UniversalSet, "
+    R.rule = "E1: leaves = intervals with endpoints in {-oo,0,1,2,3,oo} x openness, finite subsets of {0,1,3/2,2,5}, EmptySet, UniversalSet, "
              "N, N0, Z, Q, R, C; ops a->set_union(b), set_union({a,b}), a->set_intersection(b), set_intersection({a,b}), "
-             "set_complement(a,b); each transition runs in its own forked process (CPU limit) and its result tree is interpreted by an "
+             "set_complement(a,b); each transition runs in a forked sub-process under a CPU limit and its result tree is interpreted by an "
              "independent membership evaluator at 26 static points (16 rationals covering every breakpoint and an integer and a "
              "non-integer in every gap, 7 irrationals, I, 1+I, a non-number) plus any new number of the result tree, and compared with "
              "the boolean combination of the operand memberships; contains() answers that are BooleanAtoms are compared with the "
@@ -1265,6 +1352,7 @@ int main(int argc, char **argv)
     R.assumptions = {"trusted: the driver's membership interpreter and piece-list model (GMP rationals)",
                      "membership of interval/finite sets is constant on the cells of the breakpoint partition, so the point test decides equality for them",
                      "floating-point endpoints/elements, symbolic elements, ConditionSet and ImageSet are not covered",
-                     "topology of the real line for boundary/interior/closure; trees mixing number sets with intervals are skipped there"};
+                     "topology of the real line for boundary/interior/closure; trees mixing number sets with intervals are skipped there",
+                     "a case that exceeds 0.1 s of user CPU (healthy cases need < 1 ms) is reported as a hang"};
     return R.finish();
 }
